@@ -383,6 +383,38 @@ def _twin(R, rng, ctx):
                     sc = o["cond"][sn] * max([1.0] + [abs(v) for v in o["pm_P"].values()])
                     _cmp(R, f"sensor_model.state[{sn}]", o["sm_x"][sn], _map_keys(var["sm_x"][vsn], back), sc, ww, "twin_named_values_compared")
                     _cmp(R, f"sensor_model.covariance[{sn}]", o["sm_P"][sn], _map_keys(var["sm_P"][vsn], back), sc, ww, "twin_named_values_compared")
+    # a vector built by name for another layout (the renamed twin's State / Control, another sensor's Reading
+    # with the same number of entries) must be refused, not consumed by position
+    try:
+        ekf_a = build.Built(defn).py_ekf(common_subexpression_elimination=False, innovation_filtering=None)
+        ekf_b = build.Built(twin).py_ekf(common_subexpression_elimination=False, innovation_filtering=None)
+        pt0 = pts[0]
+        st_a = ekf_a.State(**{s_: pt0[s_] for s_ in defn["state"]})
+        st_b = ekf_b.State(**{rho[s_]: pt0[s_] for s_ in defn["state"]})
+        ct_a = ekf_a.Control(**{c_: pt0[c_] for c_ in defn["control"]})
+        cov_a = ekf_a.Covariance()
+        probes = [("State of the renamed twin", lambda: ekf_a.process_model(0.1, st_b, cov_a, ct_a))]
+        if defn["control"]:
+            ct_b = ekf_b.Control(**{rho[c_]: pt0[c_] for c_ in defn["control"]})
+            probes.append(("Control of the renamed twin", lambda: ekf_a.process_model(0.1, st_a, cov_a, ct_b)))
+        sens = sorted(defn["sensors"])
+        for sa in sens:
+            for sb in sens:
+                if sa != sb and len(defn["sensors"][sa]) == len(defn["sensors"][sb]) \
+                        and sorted(defn["sensors"][sa]) != sorted(defn["sensors"][sb]):
+                    rd_b = ekf_a.make_reading(sb, **{r_: 1.0 for r_ in defn["sensors"][sb]})
+                    probes.append((f"Reading of sensor {sb} handed to the update of {sa}",
+                                   lambda sa=sa, rd_b=rd_b: ekf_a.sensor_model(st_a, cov_a, sensor_key=sa, sensor_reading=rd_b)))
+        for what, call in probes:
+            if set(rho[s_] for s_ in defn["state"]) == set(defn["state"]) and "twin" in what:
+                continue  # the renaming happens to keep the name set: same layout class
+            try:
+                call()
+                R.add([K.V("foreign-vector-accepted", f"{what} was accepted and consumed by position", **w)])
+            except Exception:  # noqa: BLE001
+                R.stats.inc("foreign_vectors_refused")
+    except Exception as e:  # noqa: BLE001
+        R.stats.inc("foreign_vector_probe_setup_failed_" + type(e).__name__)
     if not R.samples:
         R.samples.append({"kind": "twin", "definition": K.brief_defn(defn), "renaming": rho,
                           "original_model_out": base[0]["model"], "renamed_model_out": tw[0]["model"]})
